@@ -35,6 +35,7 @@ from pyvc.solve import discharge  # noqa: E402
 from pyvc.symex import Executor  # noqa: E402
 
 LEVELS = {}
+LOAD_ERRORS = {}
 OUT = os.environ.get("VERIF_OUT", os.path.join(ROOT, "out"))
 EVID = os.environ.get("VERIF_EVIDENCE", os.path.join(ROOT, "evidence"))
 
@@ -43,7 +44,11 @@ def load_all_contracts():
     import contracts
 
     for m in pkgutil.iter_modules(contracts.__path__):
-        importlib.import_module("contracts." + m.name)
+        try:
+            importlib.import_module("contracts." + m.name)
+        except Exception:  # a broken sidecar file must not take the other properties' checks down
+            LOAD_ERRORS[m.name] = traceback.format_exc()
+            print(f"warning: contracts/{m.name}.py failed to import:\n{LOAD_ERRORS[m.name][-600:]}", file=sys.stderr)
 
 
 def known_findings():
@@ -332,6 +337,9 @@ def check_property(pid, tier, seed):
             lines.append(f"UNDECIDED property={pid} contract={u['contract']} reason={u['reason']}")
         for r in undecided_obs:
             lines.append(f"UNDECIDED property={pid} obligation={r.name} reason=solver:{r.status} attempts={r.attempts}")
+    if LOAD_ERRORS.get(pid.lower()):
+        exit_code = 3
+        lines.append(f"CHECKER-ERROR contracts/{pid.lower()}.py failed to import: {LOAD_ERRORS[pid.lower()][-300:]}")
     if not cs and not lms and not extra_res:
         exit_code = 3
         lines.append(f"CHECKER-ERROR no contracts registered for {pid} (zero obligations)")
